@@ -3,6 +3,8 @@ import MindsVerif.Lemmas.SelectCompose
 import MindsVerif.Lemmas.SetOps
 import MindsVerif.Lemmas.SelectTokens
 import MindsVerif.Lemmas.LitSeq
+import MindsVerif.Lemmas.PrintHist
+import MindsVerif.Gen.Reserved
 import MindsVerif.Props.C03
 import MindsVerif.Props.C18
 import MindsVerif.Model.Lex
@@ -353,5 +355,96 @@ theorem C01_review_tokens_select_expr (P : OPM.Table) (hP : C03.RoundTrip P) (c 
 example : printTks (wSel.clauses.map (Clause.map (OPM.print Gen.Prec_mindsdb.P))) =
     [.kw .from_, .pay (.atom 9), .kw .where_] ++ wToks.map .pay ++ [.kw .orderBy, .pay (.atom 1), .kw .limit, .pay (.atom 7)] := by
   decide
+/-! ## Round 5: the printed form is a function of the tree alone (history independence)
+
+`C01_full` speaks about ONE printer `print : Tree → Text`.  The library's printers are such functions in every model of
+this framework; a printer that consults process state (a module-level table of remembered decisions, a per-class
+attribute, an object identity) is a `PrintHist.SPrinter`, and the property it has to satisfy is `C01_hist`: the round trip
+after EVERY history of earlier prints.  The seeded change C01_9 (back-quote decision of `parts_to_str` remembered under
+`part.upper()`) is `PrintHist.identMemo pyUpper`.
+
+* `C01_hist_pure`, `C01_hist_of_histIndep` — for a pure printer `C01_hist` is `C01_full`; for a history-independent one it
+  follows from `C01_full` of the fresh process;
+* `C01_print_history_free` — what the model of the live atom printers says: after any history the text is
+  `atomPrint reserved a`, a whole run prints `h.map (atomPrint reserved)`.  Tie: `Driver/PrintHist.lean` evaluates
+  `(atomPrinter reserved).texts` on whole histories, the `print-history` stream compares it with the real classes printing
+  the same history in a fresh interpreter, in both orders;
+* `C01_memo_histIndep_iff`, `C01_ident_memo_histIndep_iff`, `C01_ident_memo_harmless` — a remembered decision is history
+  independent iff its key determines the decision (for ALL key functions and tables); then it prints `LexBq.partsToStr`;
+* `C01_witness_history_upper` — the seeded printer on `strasse` then `straße`, `fi` then `ﬁ`. -/
+
+/-- the property for a printer with process state: the round trip holds after every history of earlier prints -/
+def C01_hist {σ Text Tree : Type} (parse : Text → Option Tree) (P : PrintHist.SPrinter σ Tree Text) (copy : Tree → Tree) : Prop :=
+  ∀ h : List Tree, C01_full parse (P.after h) copy
+
+theorem C01_hist_pure {Text Tree : Type} (parse : Text → Option Tree) (print : Tree → Text) (copy : Tree → Tree) :
+    C01_hist parse (PrintHist.pure print) copy ↔ C01_full parse print copy :=
+  ⟨fun h => h [], fun h _ => h⟩
+
+/-- history independence reduces the property after every history to the property of a fresh process -/
+theorem C01_hist_of_histIndep {σ Text Tree : Type} (parse : Text → Option Tree) (P : PrintHist.SPrinter σ Tree Text)
+    (copy : Tree → Tree) (hi : PrintHist.HistIndep P) (h0 : C01_full parse (P.after []) copy) : C01_hist parse P copy := by
+  intro h
+  have e : P.after h = P.after [] := funext (hi h)
+  rw [e]
+  exact h0
+
+/-- **what the model says about the live atom printers**: after ANY history the text printed for an atom is
+`atomPrint reserved a`, and a whole run prints `h.map (atomPrint reserved)` -/
+theorem C01_print_history_free (reserved : List (List Char)) (h : List PrintHist.Atom) (a : PrintHist.Atom) :
+    (PrintHist.atomPrinter reserved).after h a = PrintHist.atomPrint reserved a ∧
+    (PrintHist.atomPrinter reserved).texts h = h.map (PrintHist.atomPrint reserved) ∧
+    PrintHist.HistIndep (PrintHist.atomPrinter reserved) :=
+  ⟨rfl, PrintHist.pure_texts _ h, PrintHist.pure_histIndep _⟩
+
+/-- a history-independent printer prints, in every run and from every reachable state, what a fresh process prints -/
+theorem C01_texts_of_histIndep {σ Text Tree : Type} (P : PrintHist.SPrinter σ Tree Text) (hi : PrintHist.HistIndep P)
+    (pre h : List Tree) : P.textsFrom (P.run P.init pre) h = h.map (P.after []) :=
+  PrintHist.texts_of_histIndep P hi pre h
+
+/-- **a remembered decision is history independent iff the key determines the decision** (any key, any decision) -/
+theorem C01_memo_histIndep_iff {A K V : Type} [DecidableEq K] (key : A → K) (f : A → V) :
+    PrintHist.HistIndep (PrintHist.memo key f) ↔ ∀ a b, key a = key b → f a = f b :=
+  PrintHist.memo_histIndep_iff key f
+
+/-- the same for `parts_to_str` over a remembered back-quote decision -/
+theorem C01_ident_memo_histIndep_iff {K : Type} [DecidableEq K] (key : List Char → K) (reserved : List (List Char)) :
+    PrintHist.HistIndep (PrintHist.identMemo key reserved) ↔
+      ∀ p q, key p = key q → PrintHist.needsWrap reserved p = PrintHist.needsWrap reserved q :=
+  PrintHist.identMemo_histIndep_iff key reserved
+
+/-- the harmless refactoring: a table whose key determines the decision (e.g. the part itself) prints, after any
+history, exactly `Identifier.parts_to_str` -/
+theorem C01_ident_memo_harmless {K : Type} [DecidableEq K] (key : List Char → K) (reserved : List (List Char))
+    (hdet : ∀ p q, key p = key q → PrintHist.needsWrap reserved p = PrintHist.needsWrap reserved q)
+    (h : List (List (List Char))) (ps : List (List Char)) :
+    (PrintHist.identMemo key reserved).after h ps = LexBq.partsToStr reserved ps :=
+  PrintHist.identMemo_after key reserved hdet h ps
+
+example (reserved : List (List Char)) (h : List (List (List Char))) (ps : List (List Char)) :
+    (PrintHist.identMemo id reserved).after h ps = LexBq.partsToStr reserved ps :=
+  C01_ident_memo_harmless id reserved (fun p q (e : p = q) => by rw [e]) h ps
+
+/-- **witness (seeded change C01_9)**: the back-quote decision remembered under `part.upper()`, live reserved set.
+Fresh process: `` `straße` `` / `` `ﬁ` ``; after `strasse` / `fi` were printed: `straße` / `ﬁ` without quotes; in the opposite
+order the plain words get quotes they do not need. -/
+theorem C01_witness_history_upper :
+    let P := PrintHist.identMemo PrintHist.pyUpper Gen.Reserved.wordsC
+    P.after [] ["straße".toList] = "`straße`".toList ∧
+    P.after [["strasse".toList]] ["straße".toList] = "straße".toList ∧
+    P.after [["fi".toList], ["t".toList, "strasse".toList]] ["ﬁ".toList, "straße".toList] = "ﬁ.straße".toList ∧
+    P.after [["straße".toList]] ["strasse".toList] = "`strasse`".toList ∧
+    LexBq.partsToStr Gen.Reserved.wordsC ["ﬁ".toList, "straße".toList] = "`ﬁ`.`straße`".toList := by
+  decide +kernel
+
+/-- the key of the witness does not determine the decision, the identity key does (non-vacuity of both directions) -/
+example : PrintHist.pyUpper "straße".toList = PrintHist.pyUpper "strasse".toList ∧
+    PrintHist.needsWrap Gen.Reserved.wordsC "straße".toList ≠ PrintHist.needsWrap Gen.Reserved.wordsC "strasse".toList := by
+  decide +kernel
+
+example : ¬ PrintHist.HistIndep (PrintHist.identMemo PrintHist.pyUpper Gen.Reserved.wordsC) := by
+  rw [C01_ident_memo_histIndep_iff]
+  intro h
+  exact absurd (h "straße".toList "strasse".toList (by decide +kernel)) (by decide +kernel)
 
 end MindsVerif.Props.C01
